@@ -22,10 +22,20 @@ package messaging
 //@   ensures decCount == old(decCount) + 1 && decLen == len(result0)
 //@   assigns decCount, decLen
 // EncodeSlice: arbitrary bytes and an arbitrary error. Modifies nothing.
+// encCount / encLen / encTyp / encVal / encOut (ghost log, C06): how many lists have been encoded so far and, per call number,
+// the length of the list handed over, its elements (type id, value) in order, and the reference of the bytes returned.
+//@ ghost var encCount int
+//@ ghost var encLen map
+//@ ghost var encTyp map2
+//@ ghost var encVal map2
+//@ ghost var encOut map
 //@ ext internal/codec.(*Registry[T]).EncodeSlice(r, vs)
 //@   trusted
 //@   requires r != nil
-//@   assigns nothing
+//@   ensures encCount == old(encCount) + 1 && encLen == upd(old(encLen), old(encCount), len(vs)) && encOut == upd(old(encOut), old(encCount), ref(result0))
+//@   ensures encTyp == upd(old(encTyp), old(encCount), mapof(i, typeid(vs[i]))) && encVal == upd(old(encVal), old(encCount), mapof(i, ifaceval(vs[i])))
+//@   ensures result1 == nil ==> fresh(result0)
+//@   assigns encCount, encLen, encTyp, encVal, encOut
 
 // msgCodec is initialised at its declaration (msgcodec.go) and assigned nowhere else.
 //@ pred codecReady() = msgCodec != nil
@@ -82,7 +92,7 @@ package messaging
 //@   requires buf != nil && codecReady()
 //@   label C07.save.buf.capacity
 //@   ensures result1 == nil ==> result0.Capacity == int(buf.cap)
-//@   assigns nothing
+//@   assigns encCount, encLen, encTyp, encVal, encOut
 
 //@ fn (*defaultPort).SaveCheckpoint
 //@   property C07
@@ -91,4 +101,4 @@ package messaging
 //@   ensures jsonEncCount == old(jsonEncCount) + 1 ==> as(mkiface(jsonEncTyp, jsonEncVal), "portCheckpoint").Incoming.Capacity == int(p.incomingBuf.cap) && as(mkiface(jsonEncTyp, jsonEncVal), "portCheckpoint").Outgoing.Capacity == int(p.outgoingBuf.cap)
 //@   label C07.save.port.error
 //@   ensures jsonEncCount == old(jsonEncCount) ==> result != nil
-//@   assigns jsonEncTyp, jsonEncVal, jsonEncCount
+//@   assigns jsonEncTyp, jsonEncVal, jsonEncCount, encCount, encLen, encTyp, encVal, encOut
